@@ -194,7 +194,8 @@ class CrcSys(HSystem):
             return [int(x) for x in o['T'][i]]
         if k == 'back-table':
             o['Tb'][i] = C.crc_back_table(Bits(*self.POLYS[i]))
-            return sorted((a, int(b)) for a, b in o['Tb'][i].items())
+            t = o['Tb'][i]
+            return sorted((a, int(b)) for a, b in (t.items() if hasattr(t, 'items') else enumerate(t)))
         if k == 'drop-tables':
             # the caller lets go of every table it holds: whatever is built next may live at the same addresses
             o['T'].clear()
